@@ -3,7 +3,9 @@
 KINDS = ["fifo", "lfu", "lfuda", "lru", "mru", "rr", "tlru", "utlru", "ut_map", "ut_set"]
 CAPK = ["fifo", "lfu", "lfuda", "lru", "mru", "rr", "tlru", "utlru"]
 TTLK = ["tlru", "utlru", "ut_map", "ut_set"]
-BULKK = ["fifo", "lru", "mru", "tlru", "utlru", "ut_map", "ut_set"]  # deterministic victims: a large range stays a single candidate
+BULKK = ["fifo", "lru", "mru", "ut_map", "ut_set"]  # single-candidate containers: a 300-element range over 400-key states stays cheap
+# (tlru / utlru are left out: every element may or may not reap expired residents, and following that over hundreds of
+#  elements with 400-key states costs seconds per operation for nothing the small-universe profiles do not reach)
 
 _EV_NAMES = [
     "EVICT", "EVICT_EXPIRED", "EVICT_MIXED", "EVICT_NONTRIV", "EVICT_AFTER_GAP", "LFU_MULTI", "AGING_PARTIAL", "AGING_IN_INSERT",
@@ -85,8 +87,8 @@ PROPS = {
             {"mode": "model", "kinds": TTLK, "profiles": ["ttl-edge", "ttl-edge", "ttl-edge", "tiny", "churn", "ranges"],
              "cases_quick": 3600, "cases_thorough": 40000, "trigger_any": bits("MISS_AT_DL", "EXPIRED_LOOKUP"), "typesets": 7},
             # batch expiry: hundreds of entries written by one range call reach their deadline together
-            {"mode": "model", "kinds": TTLK, "profiles": ["bulk"], "salt": "b",
-             "cases_quick": 300, "cases_thorough": 8000, "trigger_any": bits("MISS_AT_DL", "EXPIRED_LOOKUP", "EXPIRE"), "typesets": 7},
+            {"mode": "model", "kinds": ["ut_map", "ut_set"], "profiles": ["bulk"], "salt": "b",
+             "cases_quick": 600, "cases_thorough": 16000, "trigger_any": bits("MISS_AT_DL", "EXPIRED_LOOKUP", "EXPIRE"), "typesets": 7},
         ],
     },
     "C05": {
@@ -213,8 +215,8 @@ PROPS = {
         "runs": [
             {"mode": "model", "kinds": TTLK, "profiles": ["ttl-edge", "ttl-edge", "churn", "tiny", "ranges"],
              "cases_quick": 4800, "cases_thorough": 50000, "trigger_any": bits("CLEAN_MIXED"), "typesets": 7},
-            {"mode": "model", "kinds": TTLK, "profiles": ["bulk"], "salt": "b",
-             "cases_quick": 300, "cases_thorough": 8000, "trigger_any": bits("CLEAN_MIXED", "CLEAN_SOME", "REAP"), "typesets": 7},
+            {"mode": "model", "kinds": ["ut_map", "ut_set"], "profiles": ["bulk"], "salt": "b",
+             "cases_quick": 600, "cases_thorough": 16000, "trigger_any": bits("CLEAN_MIXED", "CLEAN_SOME", "REAP"), "typesets": 7},
         ],
     },
     "C18": {
